@@ -544,6 +544,30 @@ fn directed(base: &Path, lines: &HashMap<u32, String>) -> Vec<Value> {
         res.push(finish(e, vec![h1], "D5-writes-during-snapshot-manifest-section", checks, json!({})));
     }
     let _ = first_seq; // (kept for replays that inspect the event order)
+    // D10: tombstone compaction (inside another client's insert on a full index) must be excluded from the whole
+    //      of update_metadata, including the look-up of the slot it is going to change: the updater is stopped
+    //      where it asks for snapshot_lock (shared); the other client's insert compacts and renumbers the slots;
+    //      the updater resumes.  Live collection and recovered collection must agree (the WAL names the
+    //      document by its external id; a slot number resolved before the compaction names another document).
+    {
+        let e = env(base, "d10", cfg(0, 1 << 20, 3), lines);
+        do_call(&e.b, &Call::Ins(1, 1, 1));
+        do_call(&e.b, &Call::Ins(2, 2, 2));
+        do_call(&e.b, &Call::Del(1)); // tombstone in slot 0, document 2 in slot 1
+        do_call(&e.b, &Call::Ins(3, 3, 3)); // 3 physical slots = capacity, one of them a tombstone
+        gate(&e, 1, "snapshot_lock", Mode::Read, Phase::Req, 1, Some(61), Some(62));
+        let done = Arc::new(AtomicUsize::new(0));
+        let h1 = spawn(&e, 1, vec![Call::Upd(2, 9)], done.clone());
+        let a = wait_ev(61);
+        let w = do_call(&e.b, &Call::Ins(4, 4, 4)); // index full with a tombstone: compacts, renumbers, inserts
+        vt::signal(62);
+        let checks = vec![
+            ("updater-stopped-before-snapshot-lock".to_string(), a),
+            ("insert-with-compaction-acknowledged".to_string(), w.starts_with("ok")),
+        ];
+        res.push(finish(e, vec![h1], "D10-update-metadata-vs-tombstone-compaction-in-another-insert", checks, json!({"insert": w})));
+    }
+
     res
 }
 
